@@ -138,6 +138,15 @@ Proof.
   - rewrite IHn by (try lia; intros; apply H; lia). rewrite (H n) by lia. ring.
 Qed.
 
+
+Lemma sum_prod3 (f g : nat -> RC) (W : RC) N :
+  Cmul (Cmul (Csum f N) (Csum g N)) W = Csum (fun n => Csum (fun m => Cmul (Cmul (f n) (g m)) W) N) N.
+Proof.
+  transitivity (Csum (fun n => Cmul (Cmul (f n) (Csum g N)) W) N).
+  - rewrite Csum_scal_r, Csum_scal_r. reflexivity.
+  - apply Csum_ext; intros n _. rewrite Csum_scal_r, Csum_scal. reflexivity.
+Qed.
+
 (** ** generalised triangle inequality *)
 Lemma Cmod_Csum_le f n : Cmod (Csum f n) <= Rsum (fun i => Cmod (f i)) n.
 Proof.
@@ -255,6 +264,52 @@ Section Root.
     rewrite <- E, fst_Csum. apply Rsum_ext; intros k _. rewrite Cmul_conj. reflexivity.
   Qed.
 
+
+  (** exponents only matter modulo N *)
+  Lemma Cpow_mod_N k a : (1 <= N)%nat -> Cpow w (k * a) = Cpow w (k * (a mod N)).
+  Proof.
+    intros HN1. set (q := (a / N)%nat). set (r := (a mod N)%nat).
+    assert (Ha : a = (N * q + r)%nat) by (apply Nat.div_mod; lia).
+    assert (Hk : (k * a = N * (k * q) + k * r)%nat) by (rewrite Ha at 1; ring).
+    rewrite Hk, Cpow_add, Cpow_mul, HN, Cpow_1. ring.
+  Qed.
+
+  Lemma kernel_orth_gen a m : (1 <= N)%nat -> (m < N)%nat ->
+    Csum (fun k => Cmul (Cpow w (k * a)) (Cconj (Cpow w (k * m)))) N =
+    if Nat.eq_dec (a mod N) m then RtoC (INR N) else C0.
+  Proof.
+    intros HN1 Hm.
+    rewrite (Csum_ext _ (fun k => Cmul (Cpow w (k * (a mod N))) (Cconj (Cpow w (k * m)))))
+      by (intros; rewrite (Cpow_mod_N i a) by assumption; reflexivity).
+    apply kernel_orth; [apply Nat.mod_upper_bound; lia | assumption].
+  Qed.
+
+  (** autocorrelation (Wiener-Khinchin) theorem: the transform of |X|^2 is N times the circular
+      autocorrelation of x *)
+  Lemma autocorr_1d (x : nat -> RC) (s : nat) : (1 <= N)%nat ->
+    dft w N (fun k => RtoC (Cn2 (dft w N x k))) s =
+    Cmul (RtoC (INR N)) (Csum (fun n => Cmul (x n) (Cconj (x ((n + s) mod N)))) N).
+  Proof.
+    intros HN1. unfold dft at 1.
+    rewrite (Csum_ext _ (fun k => Csum (fun n => Csum (fun m =>
+               Cmul (Cmul (x n) (Cconj (x m))) (Cmul (Cpow w (k * (n + s))) (Cconj (Cpow w (k * m))))) N) N)).
+    2:{ intros k _. rewrite <- Cmul_conj. unfold dft. rewrite Csum_conj, sum_prod3.
+        apply Csum_ext; intros n _. apply Csum_ext; intros m _.
+        rewrite Cconj_mul. replace (k * (n + s))%nat with (k * n + s * k)%nat by ring.
+        rewrite Cpow_add. ring. }
+    rewrite Csum_swap.
+    rewrite (Csum_ext _ (fun n => Cmul (RtoC (INR N)) (Cmul (x n) (Cconj (x ((n + s) mod N)))))).
+    2:{ intros n Hn. rewrite Csum_swap.
+        rewrite (Csum_ext _ (fun m => Cmul (Cmul (x n) (Cconj (x m)))
+                   (if Nat.eq_dec ((n + s) mod N) m then RtoC (INR N) else C0))).
+        2:{ intros m Hm. rewrite Csum_scal, kernel_orth_gen by assumption. reflexivity. }
+        rewrite (Csum_single _ N ((n + s) mod N)).
+        - cbv beta. destruct (Nat.eq_dec ((n + s) mod N) ((n + s) mod N)) as [_|F]; [ring | contradiction].
+        - apply Nat.mod_upper_bound; lia.
+        - intros i _ Hi. cbv beta. destruct (Nat.eq_dec ((n + s) mod N) i) as [F|_]; [congruence | ring]. }
+    rewrite Csum_scal. reflexivity.
+  Qed.
+
   (** the 2-D transform is a 1-D transform of 1-D transforms *)
   Lemma dft2_nested (x : nat -> nat -> RC) k l :
     dft2 w N x k l = dft w N (fun m => dft w N (fun n => x m n) l) k.
@@ -331,7 +386,9 @@ Proof.
     split.
     + apply Rmult_lt_0_compat; [assumption|]. apply Rdiv_lt_0_compat; lra.
     + replace (INR d * (2 * PI / INR N)) with (2 * PI * (INR d / INR N)) by (field; lra).
-      assert (INR d / INR N < 1) by (apply Rlt_div_l; lra). nra.
+      assert (INR d / INR N < 1).
+      { unfold Rdiv. apply Rmult_lt_reg_r with (INR N); [lra|]. rewrite Rmult_assoc, Rinv_l by lra. lra. }
+      nra.
 Qed.
 
 Example prim_root_4 : prim_root (0, -1) 4.
@@ -339,6 +396,6 @@ Proof.
   split; [|split].
   - csimp; ring.
   - simpl; cring.
-  - intros d Hd H. assert (d = 1 \/ d = 2 \/ d = 3)%nat as [->|[->|->]] by lia;
+  - intros d Hd H. assert (d = 1 \/ d = 2 \/ d = 3)%nat as [-> | [-> | ->]] by lia;
       simpl in H; apply (f_equal fst) in H; csimp; lra.
 Qed.
